@@ -300,7 +300,9 @@ CLAIMED["C19"] = dict(
               "interleaved graph; the parser's input space and every bounded path replayed on the real parser and "
               "the real apply_connection_changes over loopback uplinks with random conn ids; reload sequences "
               "replayed through the unmodified event loop with a real SIGHUP; recorded histories validated by TLC "
-              "against the clauses",
+              "against the clauses"
+              "; the UNMODIFIED event loop (run_sender_with_config on a paused clock, real sockets) recorded end to end and "
+              "validated by TLC against the observer Trace_Loop.tla (reloads by real SIGHUP under a running stream: unlisted uplinks fall silent, kept ones keep socket and registration, added ones get one socket, refused reloads change nothing)",
     text="TLC explores every interleaving of routing, state mutation, SIGHUP (any file of the line alphabet, incl. "
          "a second SIGHUP before the first list is applied) and apply for 3 addresses and checks refused-untouched, "
          "parsed-exactly, survivors-kept, removed-exactly (uplink, I/O handle, tracker records), added-once and "
